@@ -29,6 +29,48 @@ deriving Repr, Inhabited
 
 namespace Json
 
+mutual
+/-- structural (Lean) equality, decidable: hand-written because `deriving DecidableEq` does not
+    handle the nested occurrence -/
+def decEqJson : (a b : Json) → Decidable (a = b)
+  | .null, .null => isTrue rfl
+  | .bool a, .bool b => if h : a = b then isTrue (by rw [h]) else isFalse (by intro h'; cases h'; exact h rfl)
+  | .num a, .num b => if h : a = b then isTrue (by rw [h]) else isFalse (by intro h'; cases h'; exact h rfl)
+  | .str a, .str b => if h : a = b then isTrue (by rw [h]) else isFalse (by intro h'; cases h'; exact h rfl)
+  | .arr xs, .arr ys => match decEqList xs ys with
+      | isTrue h => isTrue (by rw [h])
+      | isFalse h => isFalse (by intro h'; cases h'; exact h rfl)
+  | .obj xs, .obj ys => match decEqKvs xs ys with
+      | isTrue h => isTrue (by rw [h])
+      | isFalse h => isFalse (by intro h'; cases h'; exact h rfl)
+  | .null, .bool _ | .null, .num _ | .null, .str _ | .null, .arr _ | .null, .obj _
+  | .bool _, .null | .bool _, .num _ | .bool _, .str _ | .bool _, .arr _ | .bool _, .obj _
+  | .num _, .null | .num _, .bool _ | .num _, .str _ | .num _, .arr _ | .num _, .obj _
+  | .str _, .null | .str _, .bool _ | .str _, .num _ | .str _, .arr _ | .str _, .obj _
+  | .arr _, .null | .arr _, .bool _ | .arr _, .num _ | .arr _, .str _ | .arr _, .obj _
+  | .obj _, .null | .obj _, .bool _ | .obj _, .num _ | .obj _, .str _ | .obj _, .arr _ =>
+      isFalse (by intro h; cases h)
+def decEqList : (a b : List Json) → Decidable (a = b)
+  | [], [] => isTrue rfl
+  | x :: xs, y :: ys => match decEqJson x y, decEqList xs ys with
+      | isTrue h1, isTrue h2 => isTrue (by rw [h1, h2])
+      | isFalse h1, _ => isFalse (by intro h; cases h; exact h1 rfl)
+      | _, isFalse h2 => isFalse (by intro h; cases h; exact h2 rfl)
+  | [], _ :: _ | _ :: _, [] => isFalse (by intro h; cases h)
+def decEqKvs : (a b : List (Str × Json)) → Decidable (a = b)
+  | [], [] => isTrue rfl
+  | (k, x) :: xs, (k', y) :: ys =>
+      if hk : k = k' then
+        match decEqJson x y, decEqKvs xs ys with
+        | isTrue h1, isTrue h2 => isTrue (by rw [hk, h1, h2])
+        | isFalse h1, _ => isFalse (by intro h; cases h; exact h1 rfl)
+        | _, isFalse h2 => isFalse (by intro h; cases h; exact h2 rfl)
+      else isFalse (by intro h; cases h; exact hk rfl)
+  | [], _ :: _ | _ :: _, [] => isFalse (by intro h; cases h)
+end
+
+instance : DecidableEq Json := decEqJson
+
 /-- `dict.get(k)`: first binding (the encoders never produce duplicate keys). -/
 def lookup (k : Str) : List (Str × Json) → Option Json
   | [] => none
